@@ -134,6 +134,14 @@ pub mod ffi {
         pub code: i32,
     }
 
+    /// an out-struct with optional *struct* fields: one owning objects, one plain
+    #[diplomat::out]
+    pub struct OutNested {
+        pub tag: u32,
+        pub inner: DiplomatOption<OutOwned>,
+        pub pod: DiplomatOption<Pod>,
+    }
+
     pub trait Sink {
         fn put(&self, x: u32) -> u32;
     }
@@ -193,6 +201,10 @@ pub mod ffi {
             let a = Tok::new();
             let b = if some { Some(Tok::new()) } else { None };
             OutOwned { a, b, n: 77 }
+        }
+        pub fn make_nested(some: bool, both: bool) -> OutNested {
+            let inner = if some { Some(OutOwned { a: Tok::new(), b: if both { Some(Tok::new()) } else { None }, n: 78 }) } else { None };
+            OutNested { tag: 55, inner: inner.into(), pod: if some { None.into() } else { Some(Pod { a: 9, b: 1 }).into() } }
         }
         pub fn try_new_err_out(ok: bool) -> Result<Box<Tok>, ErrOut> {
             if ok {
